@@ -525,7 +525,11 @@ class Run:
         comp = Component(transports=transports, realm="realm1", session_factory=session_factory, **kw)
         for ev in ("connect", "join", "ready", "leave", "disconnect"):
             comp.on(ev, self._listener(ev))
-        comp.on("connectfailure", lambda c, e: self.connectfailures.append(type(e).__name__))
+        def on_connectfailure(c, e):
+            self.connectfailures.append(type(e).__name__)
+            if cfg.get("cf") == "raises":
+                raise KeyError("connectfailure listener failed")
+        comp.on("connectfailure", on_connectfailure)
         return comp
 
     def _listener(self, ev):
